@@ -11,10 +11,22 @@ package config
 // read from the flag directly and never stored in the configuration.
 //@ flagmap Config in AddFlags, AddGlobalFlags strip "rollkit." exempt home, rollkit.signer.passphrase property C18
 
+// the text a duration option is saved as is the exact duration (Duration.String is lossless), and
+// reading that text back gives the same duration: save/load keeps every duration option as it was
 //@ func (d DurationWrapper) MarshalText() (bz, err)
 //@   property C18
 //@   nopanic
+//@   fresh bz
 //@   ensures [total] err == nil
+//@   ensures [exact-text] strOf(val(bz)) == durStr(d.Duration)
+
+//@ func (d *DurationWrapper) UnmarshalText(text) (err)
+//@   property C18
+//@   nopanic
+//@   requires [receiver] d != nil
+//@   modifies d.Duration
+//@   ensures [reads-what-was-written] err == nil ==> d.Duration == durParse(strOf(val(text)))
+//@   ensures [accepts-what-MarshalText-writes] forall x :: strOf(val(text)) == durStr(x) ==> err == nil && d.Duration == x
 
 //@ func (cfg *InstrumentationConfig) ValidateBasic() (err)
 //@   property C18
